@@ -366,6 +366,12 @@ func (ms *MessageStreamer) Go(ctx context.Context, conn StreamConnection) error 
 				// set a min for this, but _after_ we compute checkInterval
 				delayAmount = time.Second
 			}
+			if checkInterval < time.Millisecond {
+				// a backoff of a few nanoseconds (or a non-positive one) would make
+				// this zero or negative, which NewTicker answers with a panic - on a
+				// goroutine nothing recovers, so it would take the process down
+				checkInterval = time.Millisecond
+			}
 			ticker := time.NewTicker(checkInterval)
 			ids := []uuid.UUID{}
 			for {
